@@ -69,9 +69,16 @@ def listing_order(seed):
         os.listdir, os.walk, os.scandir = o_listdir, o_walk, o_scandir
 
 
-def run_world(sc, base, location, order_seed, spell=None):
-    """run the scenario's ops with the root placed at base/location; returns {relpath in ascmhl folders: bytes}, exits"""
+def run_world(sc, base, location, order_seed, spell=None, enclosing=None):
+    """run the scenario's ops with the root placed at base/location; returns {relpath in ascmhl folders: bytes}, exits.
+    enclosing = ignore patterns: the folder ABOVE the root is a sealed volume of its own (sealed with these patterns
+    before the tree arrives) - where a tree is mounted includes what its ancestors happen to contain"""
     root = os.path.join(base, location)
+    if enclosing:
+        vol = os.path.dirname(root)
+        os.makedirs(vol)
+        rt.mk(vol, {"volume notes.txt": "n", "other/clip.wav": "w"})
+        rt.run("create", [vol, "-h", "md5"] + [x for p_ in enclosing for x in ("-i", p_)], "2026-02-01 10:00:00")
     os.makedirs(root)
     sc2 = dict(sc)
     imp = scenario.Impl.__new__(scenario.Impl)
@@ -130,7 +137,9 @@ def run(ctx):
             order = rnd.randint(1, 10**6)
             spell = rnd.choice([None, "slash", "relative", "cwd", "dot", "updir", "symlink"])
             a, ea, ra = run_world(sc, os.path.join(base, "w1"), loc1, None)
-            b, eb, rb = run_world(sc, os.path.join(base, "w2"), loc2, None, spell)
+            encl = rnd.choice([["*.txt"], ["*.mov", "*.bin"], ["s", "A", "*.txt"], ["*"]]) if rnd.random() < 0.3 else None
+            b, eb, rb = run_world(sc, os.path.join(base, "w2"), loc2, None, spell, encl)
+            dist["enclosing_volume"] = dist.get("enclosing_volume", 0) + (1 if encl else 0)
             c, ec, rc = run_world(sc, os.path.join(base, "w3"), loc1, order)
             evals += 3
             dist["locations"][loc2] = dist["locations"].get(loc2, 0) + 1
@@ -138,7 +147,7 @@ def run(ctx):
             dist["spellings"][str(spell)] = dist["spellings"].get(str(spell), 0) + 1
             if a != b or ea != eb:
                 diffk = sorted(k for k in set(a) | set(b) if a.get(k) != b.get(k))
-                fails.append({"what": f"sealing the same tree at {loc1!r} and at {loc2!r} (spelling {spell}) gives different ascmhl folders / exit codes: {diffk[:3]} exits {ea} vs {eb}", "replay": {"scenario": sc, "loc1": loc1, "loc2": loc2, "spell": spell}})
+                fails.append({"what": f"sealing the same tree at {loc1!r} and at {loc2!r} (spelling {spell}) gives different ascmhl folders / exit codes: {diffk[:3]} exits {ea} vs {eb}" + (f" (the folder above the second location is a volume sealed with -i {encl})" if encl else ""), "replay": {"scenario": sc, "loc1": loc1, "loc2": loc2, "spell": spell, "enclosing": encl}})
             if a != c or ea != ec:
                 diffk = sorted(k for k in set(a) | set(c) if a.get(k) != c.get(k))
                 fails.append({"what": f"sealing the same tree under another directory enumeration order (seed {order}) gives different ascmhl folders / exit codes: {diffk[:3]} exits {ea} vs {ec}", "replay": {"scenario": sc, "loc1": loc1, "order_seed": order}})
